@@ -658,7 +658,7 @@ def _hub_cases(rng, purpose):
     for kind, lu in (("slvr", 0), ("slvb", 2)):
         ns = rng.choice([258, 261, 270])
         names = list(range(100, 100 + ns))
-        atol = [-1.0] * ns
+        atol = [1.0e-10] * ns      # tight: configurations whose step histories differ are compared at the solver's accuracy
         rxns = [(0, [(0, 0), (i, 0)], [(0, 1.0), ((i % (ns - 1)) + 1, 1.0)]) for i in range(1, ns)]
         w = [1.0] * ns
         y0 = [1.0] + [rng.choice([0.5, 1.0, 2.0]) for _ in range(ns - 1)]
@@ -668,7 +668,9 @@ def _hub_cases(rng, purpose):
         cfgs = []
         ncfg = 2 if purpose == "c12" else 1
         for j in range(ncfg):
-            cfgs += [str(0 if j == 0 else 2), "0", str(lu if j == 0 else (1 if lu == 0 else 3)), "1"] + list(map(str, range(ns)))
+            # second configuration: four cells per group, the same decomposition, no reordering (the hub species is
+            # eliminated first: the factors fill in completely, more than 2^16 stored elements times lanes)
+            cfgs += ([str(0), "0", str(lu), "1"] if j == 0 else [str(4), "0", str(lu), "0"]) + list(map(str, range(ns)))
         t = [kind, "cfg"] + solver_mech_tokens(names, atol, rxns) + pt + [fnum(x) for x in w] + [str(ncfg)] + cfgs
         out.append(" ".join(t))
     return out
